@@ -100,4 +100,8 @@ Acceptable(c, seq) ==
     \cup (IF seq = <<127>> THEN {<<127, 0>>} ELSE {})            \* a single DEL byte: Backspace2
     \cup (IF seq = <<27, 91, 50, 48, 48, 126>> /\ c.hasPaste THEN {<<c.kPasteStart, 0>>} ELSE {})
     \cup (IF seq = <<27, 91, 50, 48, 49, 126>> /\ c.hasPaste THEN {<<c.kPasteEnd, 0>>} ELSE {})
+
+\* what a decode of seq may deliver: as the table allows, except that a single DEL byte is Backspace2 whatever
+\* capability (kbs, kdch1) names that byte
+DecodeAcceptable(c, seq) == IF seq = <<127>> THEN {<<127, 0>>} ELSE Acceptable(c, seq)
 =============================================================================
